@@ -220,6 +220,8 @@ func c15One(c *C10Case) C15Obs {
 	got := make([][]string, G)
 	var wg sync.WaitGroup
 	start := make(chan struct{})
+	// the concurrent generations start from a cold type information cache (hook under build tag verif)
+	openapi3gen.VerifResetTypeInfos()
 	for g := 0; g < G; g++ {
 		wg.Add(1)
 		go func(g int) {
